@@ -79,11 +79,11 @@ theorem sendDataC_quiet (capf : Stream → Nat → Nat) (a : Stream) (len m : Na
   rw [sendDataC_def]
   rcases a.sendFlow.sendData len with ⟨fl, r⟩
   simp only
-  split
-  · exact Quiet.trans (b := { a with sendFlow := fl, bufferedSendData := wrapSubUsize a.bufferedSendData len,
-      requestedSendCapacity := wrapSubU32 a.requestedSendCapacity len }) ⟨rfl, rfl, fun h => h, rfl, rfl⟩
-      (notifyCapacity_quiet _)
-  · exact ⟨rfl, rfl, fun h => h, rfl, rfl⟩
+  generalize hs1 : ({ a with sendFlow := fl, bufferedSendData := wrapSubUsize a.bufferedSendData len, requestedSendCapacity := wrapSubU32 a.requestedSendCapacity len } : Stream) = s1
+  have h0 : Quiet a s1 := by subst hs1; exact ⟨rfl, rfl, fun h => h, rfl, rfl⟩
+  by_cases hc : capf a m < capf s1 m
+  · simp only [if_pos hc]; exact h0.trans (notifyCapacity_quiet _)
+  · simp only [if_neg hc]; exact h0
 
 theorem sendData_quiet (a : Stream) (len m : Nat) : Quiet a (a.sendData len m).1 := by
   rw [sendDataC.eq]; exact sendDataC_quiet _ _ _ _
@@ -147,13 +147,21 @@ theorem setStream_quiet_acc' (b : Stream) (hb : Quiet (s.stream b.key) b) (h : T
     rw [stream_eq_of_get? hg] at hb
     exact h.tau (El.setStream hg hb.es (fun x _ => ES.rfl_none x) rfl (by intro _ _ e; cases e))
 
-@[grind ←] theorem setStream_acc (k : Nat) (b : Stream) (hb : Quiet (s.stream k) b) (h : Tr P s0 s) :
-    Tr P s0 (s.setStream b) := by
-  have hk : b.key = k := by rw [hb.key, stream_key]
-  subst hk; exact setStream_quiet_acc' b hb h
+theorem stream_key' (s : Streams) (k : Nat) : (s.stream k).key = k := by
+  unfold Streams.stream
+  cases h : s.store.get? k with
+  | none => rfl
+  | some a => exact Store.get?_key h
 
-@[grind ←] theorem setStream_wake_acc (k : Nat) (b : Stream) (w : List String) (hb : Quiet (s.stream k) b) (h : Tr P s0 s) :
+theorem setStream_acc (k : Nat) (b : Stream) (hb : Quiet (s.stream k) b) (h : Tr P s0 s) :
+    Tr P s0 (s.setStream b) := by
+  have hk : b.key = k := by rw [hb.key, stream_key']
+  subst hk; exact setStream_quiet_acc' b hb h
+grind_pattern setStream_acc => Quiet (s.stream k) b, Tr P s0 (s.setStream b)
+
+theorem setStream_wake_acc (k : Nat) (b : Stream) (w : List String) (hb : Quiet (s.stream k) b) (h : Tr P s0 s) :
     Tr P s0 ((s.setStream b).wake w) := wake_acc w (setStream_acc k b hb h)
+grind_pattern setStream_wake_acc => Quiet (s.stream k) b, Tr P s0 ((s.setStream b).wake w)
 
 @[grind ←] theorem modStream_acc (k : Nat) (f : Stream → Stream) (hf : Quiet (s.stream k) (f (s.stream k)))
     (h : Tr P s0 s) : Tr P s0 (s.modStream k f) := by
@@ -172,9 +180,7 @@ theorem setStream_quiet_acc' (b : Stream) (hb : Quiet (s.stream b.key) b) (h : T
   · exact panic_acc _ h
 
 @[grind ←] theorem unlink_acc (id : Nat) (h : Tr P s0 s) : Tr P s0 { s with store := s.store.unlink id } :=
-  h.tau ⟨Nat.le_refl _, fun _ a h => Or.inl ⟨a, h, ES.rfl_none a⟩, fun k b h h' => by
-    have : s.store.get? k = some b := h'
-    rw [h] at this; cases this, rfl, by intro _ _ e; cases e⟩
+  h.tau (.of_store_eq' (fun _ => rfl) rfl rfl)
 
 /-- `Ptr::remove` together with the bookkeeping of the leaked receive buffer entries: the step `gone k` -/
 @[grind ←] theorem remove_acc (k n : Nat) (h : Tr P s0 s) :
@@ -197,7 +203,7 @@ theorem setStream_quiet_acc' (b : Stream) (hb : Quiet (s.stream b.key) b) (h : T
   exact remove_acc k s.recvBufferLeaked h1
 
 /-- `Store::insert` of an entry with empty queues -/
-@[grind ←] theorem insert_acc (a : Stream) (ha : a.pendingSend = [] ∧ a.pendingRecv = []) (h : Tr P s0 s) :
+@[grind ←] theorem insert_acc (a : Stream) (ha1 : a.pendingSend = []) (ha2 : a.pendingRecv = []) (h : Tr P s0 s) :
     Tr P s0 { s with store := (s.store.insert a).1 } := by
   refine h.tau ⟨Nat.le_succ _, ?_, ?_, rfl, by intro _ _ e; cases e⟩
   · intro k x hx
@@ -211,11 +217,11 @@ theorem setStream_quiet_acc' (b : Stream) (hb : Quiet (s.stream b.key) b) (h : T
     split at this
     · next hk =>
       cases this
-      exact ⟨Nat.le_of_eq hk.symm, by rw [hk]; exact Nat.lt_succ_self _, ha.1, ha.2⟩
+      exact ⟨Nat.le_of_eq hk.symm, by rw [hk]; exact Nat.lt_succ_self _, ha1, ha2⟩
     · cases this
 
-@[grind =] theorem new_queues (id a b : Nat) : (Stream.new id a b).pendingSend = [] ∧ (Stream.new id a b).pendingRecv = [] :=
-  ⟨rfl, rfl⟩
+@[grind =] theorem new_pendingSend (id a b : Nat) : (Stream.new id a b).pendingSend = [] := rfl
+@[grind =] theorem new_pendingRecv (id a b : Nat) : (Stream.new id a b).pendingRecv = [] := rfl
 
 end acc
 
